@@ -58,9 +58,8 @@ INSTALL = [sched.install, install_mco]
 HARNESSES = [
     {"name": "lemmas", "fn": P + "VerifC01ConversionLemmas", "bounds": "every int64 pair, every float64 in (-2^63, 2^63): exact IEEE-754", "cfg": {"fp_int_abstract": False, "fp_mul": "exact"}, "install": []},
     {"name": "admissibility", "fn": P + "VerifC01Admissibility", "bounds": "every configuration (non-NaN factors) violating a start-up condition; any drift"},
-    {"name": "exact", "fn": P + "VerifC01Exact", "bounds": "one round, one reference clock, one peer (+ local clock), all offsets (int64), failures", "cfg": {"all_arrive": True}, "thorough_only": True},
 ]
-for (a, b, r, th, sfx) in [(0, 0, 2, False, ""), (1, 0, 2, False, ""), (0, 1, 2, False, ""), (1, 1, 1, True, ""), (1, 1, 2, True, "x2"), (2, 2, 2, True, ""), (3, 2, 2, True, ""), (4, 3, 3, True, "")]:
+for (a, b, r, th, sfx) in [(0, 0, 2, False, ""), (1, 0, 2, False, ""), (0, 1, 2, False, ""), (1, 1, 1, True, ""), (1, 1, 2, True, "x2"), (3, 0, 2, True, "")]:
     HARNESSES.append({"name": "round_%d_%d%s" % (a, b, sfx), "fn": P + "VerifC01Round_%d_%d%s" % (a, b, sfx), "thorough_only": th,
                       "timeout_quick": 240, "timeout_thorough": 900,
                       "bounds": "%d reference clocks, %d peers, %d rounds, arbitrary offsets/failures/late results" % (a, b, r)})
@@ -75,5 +74,5 @@ ASSUMPTIONS = ["int64 <-> float64 conversions are uninterpreted functions constr
                "the service loop is cut after 2 (3) rounds by the harness clock's Sleep"]
 EXPLANATION = ""
 CLAIMED = True
-LEVEL_TEXT = "Bounded model checking of the real sync.Run: (a) every configuration that violates one of the listed start-up conditions is refused before any correction is handed over; (b) for admissible configurations (impact factors up to 1e6) each explored round hands exactly one correction to the discipline, within the reference / peer bound, a peer value within the cutoff contributes nothing and both together give the midpoint (quick: reference-only and peers-only rounds incl. the cutoff clause; thorough: the exact combined form with one clock per side and magnitude bounds with up to 4+3 clocks - these combined-case queries are floating-point heavy and may end undecided, arbitrary offsets incl. MinInt64, failures and late results)."
-LEVEL_NOTE = "MeasureClockOffsets replaced by its contract (checked by C16); the two measurement goroutines run at their spawn point (they touch disjoint slices); impact x drift is an uninterpreted product shared by code and specification, constrained by sound IEEE facts; NaN factors excluded (they are neither refused nor bounded - recorded observation); 1-3 rounds explored; what the discipline does with the correction is C19."
+LEVEL_TEXT = "Bounded model checking of the real sync.Run: (a) every configuration that violates one of the listed start-up conditions is refused before any correction is handed over; (b) for admissible configurations (impact factors up to 1e6) each explored round hands exactly one correction to the discipline, within the reference / peer bound, a peer value within the cutoff contributes nothing and both together give the midpoint (quick: reference-only and peers-only rounds with one clock incl. the cutoff clause; thorough: one clock per side with the combined bound in the first round, and three reference clocks alone; arbitrary offsets incl. MinInt64, failures and late results)."
+LEVEL_NOTE = "tried and NOT registered because every back end left the combined-bound obligation undecided (600-900 s): the exact midpoint form (exact), the combined bound in rounds after the first, both sides with 2+2 / 3+2 / 4+3 clocks, and two clocks on one side alone (2+0, 0+2); MeasureClockOffsets replaced by its contract (checked by C16); the two measurement goroutines run at their spawn point (they touch disjoint slices); impact x drift is an uninterpreted product shared by code and specification, constrained by sound IEEE facts; NaN factors excluded (they are neither refused nor bounded - recorded observation); 1-3 rounds explored; what the discipline does with the correction is C19."
